@@ -78,6 +78,9 @@ def startsWith (p s : List Char) : Bool := p.isPrefixOf s
 /-- validatePath (filters): empty, or pathRegexp and no `$` -/
 def validatePath (s : List Char) : Bool := s.isEmpty || (G.pathRe.test s && !s.contains '$')
 
+/-- candidate repair of validatePath (notes/C04.md): also reject backslashes -/
+def validatePathRepaired (s : List Char) : Bool := validatePath s && !s.contains '\\'
+
 /-- HTTPNJSMatchValidator.ValidatePathInMatch -/
 def validatePathInMatch (s : List Char) : Bool := !s.isEmpty && G.pathRe.test s
 
